@@ -51,8 +51,9 @@ def _classes():
             """what a user hook typically does: look at the nodes through the public read-only API and
             keep a note on the node.  Reading must never change what later reads return."""
             first = cls.registry[0]
-            for n in cls.registry:
-                n.parents, n.children, n.is_root, n.is_leaf, n.siblings, n.node_name, (first in n), list(n)
+            for i, n in enumerate(cls.registry):
+                if (i + cls.opno) % 2 == 0 or n is me:       # a varying part of the nodes, never all of them
+                    n.parents, n.children, n.is_root, n.is_leaf, n.siblings, n.node_name, (first in n), list(n)
             me.set_attrs({"hook_seen": cls.opno})
 
         @classmethod
@@ -98,7 +99,22 @@ def _classes():
             Faults.registry.append(self)
             super().__init__(name, parents, children, **kwargs)
 
-    _CLASSES.update(Faults=Faults, FDag=FDag, PDag=PDag)
+    class VDag(FDag):
+        """user subclass with value semantics: distinct nodes with the same name compare equal"""
+
+        def __eq__(self, other):
+            return isinstance(other, VDag) and self.name == other.name
+
+        def __hash__(self):
+            return hash(self.name)
+
+    class LDag(FDag):
+        """user subclass whose instances can be falsy: a node without children is"""
+
+        def __len__(self):
+            return len(self.children)
+
+    _CLASSES.update(Faults=Faults, FDag=FDag, PDag=PDag, VDag=VDag, LDag=LDag)
     return _CLASSES
 
 
@@ -111,10 +127,10 @@ def _arg(nodes, a, salt=0):
         return nodes[a[1]]
     if a[0] == "None":
         return None
-    if salt % 2:
+    if salt % 5 == 1:
         from bigtree.node.node import Node
         return Node("junk")              # a tree node is no DAGNode either
-    return Junk()
+    return [Junk(), None, 0, "", False][salt % 5] if salt % 5 != 1 else None
 
 
 def _container(kind, items):
@@ -217,15 +233,18 @@ def _after_call(ctx, nodes, k, keep, mismatch):
     for _, lst, snap in used:
         if [id(x) for x in lst] != snap:
             mismatch.append("the call changed the caller's list")
+    idx = {id(n): i for i, n in enumerate(nodes)}
+    caller = [[idx.get(id(x), -1) for x in lst] for _, lst, _ in used]     # what the caller sees after the call
     if keep:
         ctx["last"] = {key: lst for key, lst, _ in used}
-        return
+        return caller
     ctx["last"] = {}
     for j, (_, lst, _s) in enumerate(used):
         if (k + j) % 3 == 2:
             lst.clear()
         else:
             lst.append(nodes[(7 * k + 3 + j) % len(nodes)])
+    return caller
 
 
 def _upward(links, x):
@@ -308,6 +327,11 @@ def _battery(nodes):
     return json.loads(json.dumps(out, default=str))
 
 
+def _dag_iterator():
+    from bigtree.utils.iterators import dag_iterator
+    return dag_iterator
+
+
 def run_history(case, battery=False):
     """Runs in the harness worker (checks on) and, for C20, in the no-assertion child as well."""
     cl = _classes()
@@ -317,12 +341,13 @@ def run_history(case, battery=False):
     ops = case["ops"]
     faulty = any(f in ("pre", "post") for o in ops for f in o[3:] if isinstance(f, str))
     cls = cl["PDag"] if (not faulty and len(ops) % 2 == 0) else cl["FDag"]
+    cls = {"valeq": cl["VDag"], "falsy": cl["LDag"]}.get(case.get("cls", "auto"), cls)
     for i in range(case["n"]):
         if i % 2:
             cls.from_dict({"name": case["names"][i], "age": i})
         else:
             cls(case["names"][i], age=i)
-    trace = []
+    trace, queries, digests = [], [], []
     mismatch = []      # the public getters are what is observed; anything else that is off is recorded here
     kept = []          # originals that were replaced by their copies, with their links at that moment
     ctx = {"last": {}, "used": [], "k": 0, "cls": cls}
@@ -340,12 +365,28 @@ def run_history(case, battery=False):
         except Exception as e:
             code = exn_code(e)
         F.queue, F.pending = [], False
-        _after_call(ctx, nodes, k, (k + 1 < len(ops) and is_reuse(ops[k + 1])), mismatch)
+        caller = _after_call(ctx, nodes, k, (k + 1 < len(ops) and is_reuse(ops[k + 1])), mismatch)
         links = _links(nodes, mismatch)
         trace.append([links, code])
-        # query - (no) mutate - query: derived queries must not change what the getters return
-        for n in nodes:
-            _guard(lambda: (n.ancestors, n.descendants, n.siblings, n.describe()))
+        # query - (no) mutate - query on a varying FEW of the objects (querying all of them after every op
+        # would prime every cache everywhere and hide state that is only primed by some reads)
+        idx = {id(n): i for i, n in enumerate(nodes)}
+        sample = [i for i in range(len(nodes)) if (7 * i + 3 * k + len(ops)) % 3 == 0]
+        q, derived = [], [caller]
+        for i in sample:
+            n = nodes[i]
+            a = _guard(lambda: [idx.get(id(x), -1) for x in n.ancestors])
+            q.append([i, sorted(x if x >= 0 else 999 for x in a) if a[:1] != ["exn"] else _upward(links, i)])
+            if battery:
+                m = nodes[(i + 1 + k) % len(nodes)]
+                derived.append([i, a, _guard(lambda: [idx.get(id(x), -1) for x in n.descendants]),
+                                _guard(lambda: [idx.get(id(x), -1) for x in n.siblings]),
+                                _guard(lambda: [[idx.get(id(x), -1) for x in pth] for pth in n.go_to(m)]),
+                                _guard(lambda: [[idx.get(id(x), -1) for x in pr] for pr in _dag_iterator()(n)])])
+            else:
+                _guard(lambda: (n.descendants, n.siblings, n.describe()))
+        queries.append(q)
+        digests.append(derived)
         if _links(nodes) != links:
             mismatch.append("a read-only query changed the links")
     idx = {id(n): i for i, n in enumerate(nodes)}
@@ -368,9 +409,10 @@ def run_history(case, battery=False):
         # something outside the observed links is off: the getter view is still evaluated against the
         # property; the extra entry makes the correspondence (agree_anc: length) fail as well
         anc.append([])
-    obs = {"trace": trace, "anc": anc, "harness_notes": sorted(set(mismatch))}
+    obs = {"trace": trace, "anc": anc, "q": queries, "harness_notes": sorted(set(mismatch))}
     if battery:
         obs["bat"] = _battery(nodes)
+        obs["dig"] = digests
     return obs
 
 
@@ -386,6 +428,7 @@ def run_impl(prop, case):
         off = noassert.call(MOD, "run_history", case, True)
         obs["off"] = off["trace"]
         obs["bat_off"] = off["bat"]
+        obs["dig_off"] = off["dig"]
         if off["harness_notes"]:
             obs["anc"] = obs["anc"] + [[]]
             obs["harness_notes"] = sorted(set(obs["harness_notes"]) | {"checks off: " + x for x in off["harness_notes"]})
@@ -476,6 +519,8 @@ def emit(prop, case, obs):
         clist(_cop(o) for o in case["ops"]), _ctrace(obs["trace"]),
         clist(_ids(a) for a in obs["anc"]), _ctrace(obs.get("off", [])),
         _cdigests(obs.get("bat", [])), _cdigests(obs.get("bat_off", [])),
+        clist(clist(f"({int(i)}, {_ids(a)})" for i, a in q) for q in obs["q"]),
+        _cdigests(obs.get("dig", [])), _cdigests(obs.get("dig_off", [])),
     ]
     return "DC " + " ".join(f"({p})" for p in parts)
 
@@ -602,17 +647,38 @@ NAME_POOLS = {
     "allsame": ["a"] * 12,
     "falsy": ["", "0", "", "a", "0", "", "b", "", "0", "a", "", "0"],
 }
-SHAPES = ["deep", "diamond", "wide", "mixed"]
+SHAPES = ["deep", "upward", "diamond", "wide", "mixed"]
+
+
+def eq_safe(before, after, names, faulty):
+    """value-equality stratum: the unchanged library compares nodes with == in `in`, list.remove and
+    dict.fromkeys; it is well-defined (and the identity-based model applies) as long as no node ever has
+    two distinct ancestors that compare equal, and -- when a rollback runs -- the touched child lists hold
+    no two distinct equal members either"""
+    for v in range(after.n):
+        an = [names[a] for a in after.anc(v)]
+        if len(set(an)) != len(an):
+            return False
+    if faulty:
+        for v in range(after.n):
+            if v >= before.n or after.kid[v] != before.kid[v]:
+                kn = [names[c] for c in after.kid[v]]
+                if len(set(kn)) != len(kn):
+                    return False
+    return True
 
 
 def _N(ids):
     return [["N", int(i)] for i in ids]
 
 
-def gen_case(rng, prop, fault_rate=0.08, invalid_rate=0.2, nmax=8, maxops=16, minops=3):
+def gen_case(rng, prop, fault_rate=0.08, invalid_rate=0.2, nmax=8, maxops=16, minops=3, tail_invalid=0.0):
     shape = rng.choice(SHAPES)
-    n = rng.randint(4, nmax) if shape in ("deep", "diamond") else rng.randint(2, nmax)
+    n = rng.randint(4, nmax) if shape in ("deep", "upward", "diamond") else rng.randint(2, nmax)
+    kind = rng.choice(["auto"] * 4 + ["valeq", "falsy"])       # which DAGNode subclass the objects are
     pool_name = rng.choice(["distinct", "distinct", "repeated", "repeated", "allsame", "falsy"])
+    if kind == "valeq":
+        pool_name = rng.choice(["repeated", "repeated", "falsy", "distinct"])
     pool = NAME_POOLS[pool_name]
     off = rng.randrange(len(pool))
     names = [pool[(off + i) % len(pool)] for i in range(n)]
@@ -625,14 +691,24 @@ def gen_case(rng, prop, fault_rate=0.08, invalid_rate=0.2, nmax=8, maxops=16, mi
         return "post" if r < fault_rate * 0.6 else "pre" if r < fault_rate else "none"
 
     def push(op):
+        if kind == "falsy" and op[0] == "DelKid":
+            return False        # find_children / __delitem__ test `if node`: a falsy (leaf) child is never found
+        if kind == "valeq":
+            probe, nm = Shadow(par=sh.par, kid=sh.kid), list(names)
+            st = _strip(op)
+            shadow_apply(probe, nm, st)
+            if not eq_safe(sh, probe, nm, st != list(op)):
+                return False
         ops.append(op)
         shadow_apply(sh, names, op)
+        return True
 
     # warm-up so that long paths / several parents exist early in the history
     order = list(range(n))
     rng.shuffle(order)
-    if shape == "deep":
-        for a, b in zip(order, order[1:rng.randint(4, n)]):
+    if shape in ("deep", "upward"):
+        pairs = list(zip(order, order[1:rng.randint(4, n)]))
+        for a, b in (pairs if shape == "deep" else pairs[::-1]):      # top-down, or each new parent above the old root
             push(rng.choice([["RShift", a, b, "none"], ["LShift", b, a, "none"],
                              ["SetKids", a, "list", _N([b]), "none"], ["SetParents", b, "list", _N([a]), "none"]]))
     elif shape == "diamond":
@@ -648,6 +724,19 @@ def gen_case(rng, prop, fault_rate=0.08, invalid_rate=0.2, nmax=8, maxops=16, mi
         n = sh.n
         r = rng.random()
         invalid = rng.random() < invalid_rate
+        tops = [x for x in range(n) if not sh.par[x] and sh.kid[x]]
+        if tops and not invalid and rng.random() < 0.12:   # grow upwards / sideways: a new parent above an existing root
+            r0 = rng.choice(tops)
+            bad = sh.desc(r0) | {r0}
+            cands = [x for x in range(n) if x not in bad]
+            lone = [x for x in cands if not sh.par[x]] or cands
+            if lone:
+                p = rng.choice(lone)
+                push(rng.choice([["RShift", p, r0, fault()], ["LShift", r0, p, fault()],
+                                 ["SetParents", r0, "list", _N([p] + [x for x in lone if x != p][:1]), fault()],
+                                 ["SetKids", p, rng.choice(["list", "gen"]), _N([r0]), fault()],
+                                 ["New", pool[(off + n) % len(pool)], None, ["list", _N([r0])], fault(), fault()]]))
+                continue
         if r < 0.27:                                       # c.parents = [...]
             c = rng.randrange(n)
             bad = sh.desc(c) | {c}
@@ -746,7 +835,22 @@ def gen_case(rng, prop, fault_rate=0.08, invalid_rate=0.2, nmax=8, maxops=16, mi
             push(["New", pool[(off + n) % len(pool)], pa, ca, fault(), fault()])
             if pa and pa[0] == "list" and pa[1] and rng.random() < 0.3 and sh.n < nmax + 2:
                 push(["New", pool[(off + n + 1) % len(pool)], pa, None, fault(), fault(), "reuse"])
+    if rng.random() < tail_invalid:
+        # C20: an assignment with a None / non-node / falsy member as the last op.  The unchanged checks refuse it
+        # (then the comparison ends there); if the checks-on interpreter accepts it, checks-off has to as well.
+        n = sh.n
+        t = rng.randrange(n)
+        setter = rng.choice(["SetParents", "SetKids"])
+        bad = (sh.desc(t) if setter == "SetParents" else sh.anc(t)) | {t}
+        cands = [x for x in range(n) if x not in bad]
+        rng.shuffle(cands)
+        args = _N(cands[: rng.randint(0, min(3, len(cands)))])
+        args.insert(rng.randint(0, len(args)), rng.choice([["None"], ["None"], ["Junk"]]))
+        push([setter, t, "list", args, "none"])
     case = {"assert": True, "n": n0, "names": names[:n0], "ops": ops, "stratum": f"{shape}/{pool_name}"}
+    if kind != "auto":
+        case["cls"] = kind
+        case["stratum"] += "/" + kind
     if len(ops) >= 2 and rng.random() < 0.2:
         # harness-only: before op k, object x (and its whole component) is replaced by node.copy()
         case["copy_at"] = [[rng.randint(1, len(ops) - 1), rng.randrange(n0)]]
@@ -996,6 +1100,23 @@ def corpus(prop):
             ["SetKids", 0, "list", N([1, 2]), "none"], ["SetParents", 3, "list", N([1, 2]), "none"],
             ["RShift", 3, 4, "none"], ["SetKids", 4, "list", N([0]), "none"], ["DelKid", 0, "a"],
             ["SetParents", 4, "list", N([0, 1]), "post"], ["DelKids", 0]]}),
+        # wave 5: user subclass with value equality -- two distinct but equal children of one parent
+        ("valeq-equal-children", {"n": 6, "names": ["a", "c", "c", "d", "e", "e"], "cls": "valeq", "ops": [
+            ["SetKids", 0, "list", N([1, 3, 2]), "none"], ["SetKids", 3, "list", N([4]), "none"],
+            ["SetKids", 3, "list", N([5]), "none"], ["New", "g", None, ["list", N([4, 5])], "none", "none"],
+            ["DelKids", 0], ["SetKids", 0, "tuple", N([2, 1]), "none"]]}),
+        ("falsy-subclass", {"n": 5, "names": ["a", "b", "c", "d", "e"], "cls": "falsy", "ops": [
+            ["SetKids", 0, "list", N([1, 2]), "none"], ["SetParents", 3, "list", N([1, 2]), "none"],
+            ["RShift", 3, 4, "none"], ["SetKids", 4, "list", N([0]), "none"], ["SetParents", 4, "list", N([0]), "post"],
+            ["DelKids", 1]]}),
+        # wave 5: ancestors memoised while the checks read them, new parent put above the old root afterwards
+        ("upward-growth", {"n": 6, "names": ["a", "b", "c", "d", "e", "f"], "ops": [
+            ["RShift", 0, 1, "none"], ["RShift", 1, 2, "none"], ["SetKids", 2, "list", N([3]), "none"],
+            ["RShift", 4, 0, "none"], ["SetKids", 3, "list", N([5]), "none"], ["SetParents", 0, "list", N([5]), "none"],
+            ["SetKids", 5, "gen", N([4]), "none"]]}),
+        # wave 5: a check that normalises its argument (None entries dropped from the caller's list)
+        ("none-member-last", {"n": 5, "names": ["a", "b", "c", "d", "e"], "keep_last": True, "ops": [
+            ["SetParents", 1, "list", N([0]), "none"], ["SetParents", 3, "list", [["N", 0], ["None"], ["N", 2]], "none"]]}),
         ("constructor", {"n": 3, "names": ["a", "b", "c"], "ops": [
             ["RShift", 0, 1, "none"], ["New", "d", ["list", N([1])], ["list", N([2])], "none", "none"],
             ["New", "e", ["list", N([3])], ["list", N([0])], "none", "none"],
@@ -1006,9 +1127,9 @@ def corpus(prop):
     for label, c in out:
         if not faulty:      # C20: keep failing hooks, drop what the checks refuse
             sh, nm, ops = Shadow(c["n"]), list(c["names"]), []
-            for o in c["ops"]:
+            for j, o in enumerate(c["ops"]):
                 probe = Shadow(par=sh.par, kid=sh.kid)
-                if shadow_apply(probe, list(nm), _strip(o)):
+                if shadow_apply(probe, list(nm), _strip(o)) or (j == len(c["ops"]) - 1 and c.get("keep_last")):
                     ops.append(o)
                     shadow_apply(sh, nm, o)
             c = dict(c, ops=ops)
@@ -1022,7 +1143,7 @@ def corpus(prop):
 def generate(prop, rng, tier):
     count = {"quick": 1500, "thorough": 15000, "search": 4500}[tier]
     if prop == "C20":          # two traces and two interpreters per case
-        count = count // 2
+        count = count * 2 // 5
     fr = {"C10": 0.08, "C02": 0.4, "C20": 0.15}[prop]     # C20: failing user hooks yes, check-refused ops no
     ir = {"C10": 0.22, "C02": 0.25, "C20": 0.0}[prop]
     if tier == "thorough":
@@ -1037,8 +1158,8 @@ def generate(prop, rng, tier):
             c["stratum"] = "long/" + c["stratum"]
             yield c["stratum"], c
     for i in range(count):
-        c = gen_case(rng, prop, fault_rate=fr, invalid_rate=ir)
-        if prop == "C20" and rng.random() < 0.15:
+        c = gen_case(rng, prop, fault_rate=fr, invalid_rate=ir, tail_invalid=(0.25 if prop == "C20" else 0.0))
+        if prop == "C20" and c["ops"] and c["ops"][-1][-1] != "reuse" and rng.random() < 0.15:
             # refused in both modes (checks on: __check_children_type, checks off: list() itself), nothing changes
             c["ops"].append(["SetKids", rng.randrange(c["n"]), "noniter", [], "none"])
         yield c["stratum"], c
@@ -1112,7 +1233,10 @@ def rule(prop):
             "list object; in ~20 % of the histories one object's component is replaced by node.copy() half-way and the history continues "
             "on the copies (originals must stay unchanged); after every op the links are read twice through the public getters and the "
             "private lists, then ancestors/descendants/siblings/describe of every node are queried and the links read again; "
-            "strata: shape (deep/diamond/wide/mixed) x name pool (distinct/repeated/all equal/falsy names); thorough tier adds every DAG state "
+            "after every op ancestors of a varying few objects are compared with the model (and, C20, their derived queries and the caller's "
+            "argument lists across the two interpreters); strata: shape (deep/upward/diamond/wide/mixed, plus ops that put a new parent above "
+            "an existing root) x name pool (distinct/repeated/all equal/falsy names) x node class (plain / hooks / value-equality subclass / "
+            "subclass with falsy instances); thorough tier adds every DAG state "
             "reachable on <= 4 objects (up to renaming) x every op of a finite universe, a second such pass with all names equal; "
             "non-trivial = >= 2 accepted ops and >= 2 edges at some point" + extra + "; distinct by canonical JSON hash")
 
@@ -1155,7 +1279,12 @@ def partial_clauses(prop):
         "node.ancestors is compared with the model as a set and only at the end of the history (its order is C16's); descendants/siblings/go_to "
         "results are exercised after every op but compared only across the two interpreters (C20), not against a model",
         "not generated: Python sets with > 1 member (hash order), a DAGNode used as the iterable (`p.children = q`), the `parent=` keyword of the "
-        "constructor, subclasses overriding __eq__/__hash__, hooks that change links or their list argument, node names that are not str",
+        "constructor, hooks that change links or their list argument, node names that are not str",
+        "value-equality subclass (__eq__/__hash__ by name): only histories in which no node ever gets two distinct ancestors that compare equal "
+        "and, when a rollback runs, the touched child lists hold no two distinct equal members -- outside that domain the unchanged library "
+        "(`in`, list.remove, dict.fromkeys on nodes) accepts a cycle, drops an edge silently or leaves a failed assignment in place",
+        "subclass with falsy instances (__len__): `del node[name]` is not generated -- find_children/__delitem__ test `if node` and never find a "
+        "falsy (leaf) child",
     ]
     if prop == "C20":
         out.append("the C20 battery runs on the final DAG only and is compared by digest between the interpreters; workflows/plot calls are not in it")
